@@ -320,6 +320,10 @@ pub struct Case {
     pub trigger_fails: bool,
     #[serde(default)]
     pub via: Via,
+    /// before the case proper, one transaction on the same App in which a contract dispatches several dozen
+    /// sub-messages that fail and are caught by its reply entry point
+    #[serde(default)]
+    pub storm: bool,
     /// bank, custom, staking, distribution, ibc, gov, stargate
     pub modes: Vec<Mode>,
     pub origin: Origin,
@@ -555,7 +559,8 @@ fn gen_k(g: &mut Gen) -> K {
 }
 
 fn gen_q(g: &mut Gen) -> Q {
-    let bytes = |g: &mut Gen| Hx(g.bytes_from(8, &[]));
+    // (rarely a request beyond 64 KiB)
+    let bytes = |g: &mut Gen| if g.chance(1, 12) { Hx(vec![0x5a; 66_000 + g.below(3000)]) } else { Hx(g.bytes_from(8, &[])) };
     match g.below(9) {
         0 => Q::BankBalance,
         1 => Q::BankSupply,
@@ -579,6 +584,24 @@ impl RoutingCheck {
             Origin::Puppet => b.puppets[..depth].to_vec(),
             Origin::Lifted => b.lifted[..depth].to_vec(),
         };
+        if case.storm {
+            let helper = b.helper.clone();
+            let failing: CosmosMsg<XMsg> = WasmMsg::Execute { contract_addr: helper.to_string(), msg: to_json_binary(&PMsg { n: 71 }).unwrap(), funds: vec![] }.into();
+            let mut nodes: BTreeMap<usize, NodeRt> = BTreeMap::new();
+            nodes.insert(70, NodeRt { subs: (0..34).map(|_| SubMsg { id: 9, payload: Binary::from(b"st".to_vec()), msg: failing.clone(), gas_limit: None, reply_on: ReplyOn::Error }).collect(), ..Default::default() });
+            nodes.insert(71, NodeRt { fail: true, ..Default::default() });
+            nodes.insert(72, NodeRt::default());
+            let mut lookup = BTreeMap::new();
+            lookup.insert((helper.to_string(), 9u64, b"st".to_vec()), 72usize);
+            install(nodes, BTreeMap::new(), lookup);
+            let (app, user) = (&mut b.app, b.user.clone());
+            let warm: CosmosMsg<XMsg> = WasmMsg::Execute { contract_addr: helper.to_string(), msg: to_json_binary(&PMsg { n: 70 }).unwrap(), funds: vec![] }.into();
+            let r = catch(|| app.execute(user, warm).map(|_| ()).map_err(|e| e.to_string()));
+            let _ = take_trace();
+            let _ = take_rlog();
+            ensure!(matches!(r, Ok(Ok(()))), "C17:module-success-reported-as-error", "a call whose 34 failing sub-messages are all caught by reply did not succeed: {:?}", r);
+            cx.label("storm-before");
+        }
         let before = scan(b.app.storage());
         match &case.what {
             What::Exec(k) => {
@@ -943,7 +966,7 @@ impl Check for RoutingCheck {
         Spec {
             id: "C17",
             level: "exploration",
-            rule: "generated: a mode (crate's real keeper/default, crate's accepting module, crate's failing module) for each of the seven router slots, a message (16 kinds over bank, custom, staking, distribution, ibc, gov, stargate, any) or query (9 kinds) or sudo with generated payload, an entry point of the emitting contract (execute, migrate, sudo, or the reply to a helper call that succeeded or failed), an origin (top level, alone or as the second message of a batch whose first is a bank send; chain of 1-3 contracts written for the chain's message type; chain of 1-3 Empty-typed contracts lifted by ContractWrapper), a reply_on mode, an optional earlier sibling write, an optional earlier call of the contract to itself with funds attached (the transfer must reach the bank slot) and an optional earlier sibling that fails uncaught (then nothing may be delivered); oracle: exactly one log entry, in the slot configured for that kind, with the dispatching contract/user as sender and the payload intact, no other module called, caller sees Ok iff the module accepted (or the failure is caught by reply), the data and events an accepting module answers (none / present-but-empty / bytes plus an event) reach the caller or the reply unchanged, failed calls leave root storage byte-identical including the marker the module wrote before failing. The cross product {kind} x {origin} x {mode} x {Never, Always} is enumerated in every run. Non-trivial: a non-bank kind from depth>=1, or the lifted origin, or a failing module after a sibling write, or a query from inside a contract; distinct = distinct serialised case",
+            rule: "generated: a mode (crate's real keeper/default, crate's accepting module, crate's failing module) for each of the seven router slots, a message (16 kinds over bank, custom, staking, distribution, ibc, gov, stargate, any) or query (9 kinds) or sudo with generated payload, an entry point of the emitting contract (execute, migrate, sudo, or the reply to a helper call that succeeded or failed), an origin (top level, alone or as the second message of a batch whose first is a bank send; chain of 1-3 contracts written for the chain's message type; chain of 1-3 Empty-typed contracts lifted by ContractWrapper), a reply_on mode, an optional earlier sibling write, an optional earlier call of the contract to itself with funds attached (the transfer must reach the bank slot) and an optional earlier sibling that fails uncaught (then nothing may be delivered); oracle: exactly one log entry, in the slot configured for that kind, with the dispatching contract/user as sender and the payload intact, no other module called, caller sees Ok iff the module accepted (or the failure is caught by reply), the data and events an accepting module answers (none / present-but-empty / bytes plus an event) reach the caller or the reply unchanged, failed calls leave root storage byte-identical including the marker the module wrote before failing. The cross product {kind} x {origin} x {mode} x {Never, Always} is enumerated in every run. Non-trivial: a non-bank kind from depth>=1, or the lifted origin, or a failing module after a sibling write, or a query from inside a contract; distinct = distinct serialised case One case in twelve is preceded, on the same App, by a transaction in which a contract dispatches 34 sub-messages that fail and are caught by its reply; stargate / grpc query data is 66-69 KB in one query in twelve",
             assumptions: vec![
                 "with a real keeper in a slot only requests that keeper supports are sent (delegate, set-withdraw-address, bank send/burn by funded senders)",
                 "CosmosMsg::Custom cannot be emitted by an Empty-typed contract (excluded for the lifted origin)",
@@ -985,7 +1008,7 @@ impl Check for RoutingCheck {
             2 => Via::Sudo,
             _ => Via::Reply,
         };
-        Case { ret: g.below(3) as u8, self_funded: g.chance(1, 4), before_fails: g.chance(1, 6), trigger_fails: g.bool(), via, modes, origin, depth: 1 + g.below(3) as u8, what, reply_on, sibling: g.bool() }
+        Case { ret: g.below(3) as u8, self_funded: g.chance(1, 4), before_fails: g.chance(1, 6), trigger_fails: g.bool(), via, storm: g.chance(1, 12), modes, origin, depth: 1 + g.below(3) as u8, what, reply_on, sibling: g.bool() }
     }
 
     fn execute(&self, case: &Case, cx: &mut Cx) -> Result<(), Failure> {
@@ -1005,7 +1028,7 @@ impl Check for RoutingCheck {
                         let mut modes = vec![Mode::Default; 7];
                         modes[slot_of(k)] = mode;
                         for via in [Via::Execute, Via::Migrate, Via::Sudo, Via::Reply] {
-                            out.push(Case { ret: (out.len() % 3) as u8, self_funded: via == Via::Execute && reply_on == RO::Never, before_fails: false, trigger_fails: reply_on == RO::Always, via, modes: modes.clone(), origin, depth: 1, what: What::Exec(k.clone()), reply_on, sibling: reply_on == RO::Never });
+                            out.push(Case { ret: (out.len() % 3) as u8, self_funded: via == Via::Execute && reply_on == RO::Never, before_fails: false, trigger_fails: reply_on == RO::Always, via, storm: false, modes: modes.clone(), origin, depth: 1, what: What::Exec(k.clone()), reply_on, sibling: reply_on == RO::Never });
                         }
                     }
                 }
@@ -1015,7 +1038,7 @@ impl Check for RoutingCheck {
         for q in &queries {
             for origin in [Origin::Top, Origin::Puppet, Origin::Lifted] {
                 for mode in [Mode::Default, Mode::Accept, Mode::Fail] {
-                    out.push(Case { ret: 0, self_funded: false, before_fails: false, trigger_fails: false, via: Via::Execute, modes: vec![mode; 7], origin, depth: 2, what: What::Query(q.clone()), reply_on: RO::Never, sibling: false });
+                    out.push(Case { ret: 0, self_funded: false, before_fails: false, trigger_fails: false, via: Via::Execute, storm: false, modes: vec![mode; 7], origin, depth: 2, what: What::Query(q.clone()), reply_on: RO::Never, sibling: false });
                 }
             }
         }
@@ -1046,6 +1069,11 @@ impl Check for RoutingCheck {
         if case.trigger_fails {
             let mut c = case.clone();
             c.trigger_fails = false;
+            out.push(c);
+        }
+        if case.storm {
+            let mut c = case.clone();
+            c.storm = false;
             out.push(c);
         }
         if case.before_fails {
